@@ -23,7 +23,7 @@ import tempfile
 from concurrent.futures import ThreadPoolExecutor
 
 VERIF = os.path.dirname(os.path.dirname(os.path.abspath(__file__)))
-REPO = "/repo"
+REPO = "/repo"          # replaced in main() by a snapshot taken at the start of the run
 FILES = ["hasher.py", "torrent.py", "recheck.py", "rebuild.py", "edit.py", "commands.py", "utils.py"]
 ALL_PROPS = [f"C{i:02d}" for i in range(1, 21)]
 
@@ -174,6 +174,17 @@ def main():
     ap.add_argument("--files", default=",".join(FILES))
     a = ap.parse_args()
     os.makedirs(a.out, exist_ok=True)
+    # work from a snapshot: commits made to /repo while the run is going on must not shift the node indices
+    global REPO
+    snap = os.path.join(a.out, "base")
+    if not os.path.isdir(snap):
+        os.makedirs(snap)
+        shutil.copytree("/repo/torrentfile", os.path.join(snap, "torrentfile"), ignore=shutil.ignore_patterns("__pycache__"))
+        shutil.copytree("/repo/tests", os.path.join(snap, "tests"), ignore=shutil.ignore_patterns("__pycache__", "TESTDIR"))
+        for f in ("pyproject.toml", "tox.ini", "setup.py"):
+            if os.path.exists(os.path.join("/repo", f)):
+                shutil.copy(os.path.join("/repo", f), snap)
+    REPO = snap
     allsites = []
     for f in a.files.split(","):
         tree = ast.parse(open(os.path.join(REPO, "torrentfile", f)).read())
